@@ -1,5 +1,7 @@
 """R-LIVE / R-FLOW (C05, C06, C17): index results reach the output; per-dimension conversion,
 fall-back and bounds logic decided by abstract interpretation ('one arbitrary iteration' loop abstraction)."""
+import re
+
 from ..absint import GenericInterp, Opaque, Unsupported
 from ..extract import AnalysisBroken
 from ..sem import Sem, Flow, term, unwrap, real_args, LOCAL_KINDS
@@ -536,3 +538,53 @@ def _flat_terms(t):
 def split_sig_types(sig):
     from ..sem import split_sig
     return split_sig(sig)
+
+
+def run_parallel(prog, rep):
+    """per-dimension containers handed to one call are read at the same dimension index"""
+    rule = rep.rule('R-PARALLEL', 'a call that takes elements of several per-dimension containers (positions, units, dimensions) reads all of them at the same index', floor=4)
+    n = 0
+    for f in sorted(prog.funcs.values(), key=lambda f: (f.file, f.line)):
+        if f.body is None or not f.q.startswith('nix::util::') or not (f.file or '').endswith('dataAccess.cpp'):
+            continue
+        seen = {}
+        for c in f.calls():
+            if not (c.callee.get('q') or '').startswith('nix::') or c.get('op'):
+                continue
+            subs = []
+            for a in real_args(c):
+                if a is None:
+                    continue
+                x = unwrap(a)
+                # outermost container subscript: X[i] or X[i][j] -> (X, i)
+                chain = []
+                while x is not None and ((x.k == 'call' and x.get('op') == '[]') or x.k == 'subscript'):
+                    chain.append(x)
+                    x = unwrap(x.c[0])
+                if not chain or x is None or x.k != 'ref':
+                    continue
+                first = chain[-1]
+                idx = term(unwrap(first.c[1]))
+                if idx[0] != 'v':
+                    continue
+                subs.append((x.decl.get('name'), idx, first))
+            if len(subs) < 2:
+                continue
+            n += 1
+            names = sorted(set(s[0] for s in subs))
+            idxs = set(s[1] for s in subs)
+            key = '%s%s|%s(%s)' % (re.sub(r'<.*', '', f.q), _sigkey(f)[:50], c.callee.get('name'), ','.join(names))
+            k2 = key
+            i = 1
+            while k2 in seen:
+                i += 1
+                k2 = '%s#%d' % (key, i)
+            seen[k2] = True
+            if len(idxs) == 1:
+                rule.ok(k2, rep.where(c), f.label(), 'all read at %s' % list(idxs)[0][2])
+            else:
+                rule.bad(k2, rep.where(c), f.label(), 'per-dimension arguments are read at different indices: %s - the element of one dimension is combined with the unit/descriptor of another' % ', '.join(
+                    '%s[%s]' % (s[0], s[1][2]) for s in subs))
+    if n < 4:
+        raise AnalysisBroken('R-PARALLEL: only %d multi-container calls found' % n)
+    return rule
